@@ -34,6 +34,44 @@ type observer struct {
 	mu    sync.Mutex
 	kvs   []*kvRec
 	iters atomic.Int64 // iterators handed out by the wrapped KVs and not closed yet
+	inj   *injector    // numbers the batch commits of the node under test (nil: not counted)
+}
+
+// injector numbers every KV batch commit the node under test performs (1, 2, ...; the commits of
+// UpdateTerm included) and runs an action right BEFORE commit number k reaches the engine: a
+// Flush of the real KV (everything committed so far becomes the on-disk image; what NewTerm, a
+// snapshot for a lagging follower or a full memtable do at an arbitrary moment) or a snapshot
+// that is installed on a fresh node. Every batch commit of the implementation is thereby a
+// potential "the disk image is taken here" point, also the commits that fall inside the
+// application of ONE log entry.
+type injector struct {
+	k     int64 // 0 = never
+	act   func(inner kv.KV) error
+	armed atomic.Bool
+	seen  atomic.Int64
+	fired atomic.Bool
+	mu    sync.Mutex
+	err   error
+}
+
+func (i *injector) before(inner kv.KV) {
+	if i == nil || !i.armed.Load() {
+		return
+	}
+	if n := i.seen.Add(1); n == i.k && i.act != nil {
+		i.fired.Store(true)
+		if err := i.act(inner); err != nil {
+			i.mu.Lock()
+			i.err = err
+			i.mu.Unlock()
+		}
+	}
+}
+
+func (i *injector) failure() error {
+	i.mu.Lock()
+	defer i.mu.Unlock()
+	return i.err
 }
 
 type obsFactory struct {
@@ -122,6 +160,7 @@ func (b *obsBatch) DeleteRange(lo, hi string) error {
 }
 
 func (b *obsBatch) Commit() error {
+	b.k.o.inj.before(b.k.KV)
 	err := b.WriteBatch.Commit()
 	if err == nil {
 		b.k.o.mu.Lock()
